@@ -158,6 +158,13 @@ def t_raise_first_exc(E):
         seq_loop(E, stn, fr, src.t, lambda i: [('no_iteration_completes_normally', i == 0)], 'excs')
     E.hooks[(f.qualname, 'loop', 0)] = loop0
 
+    def comprehension(E_, e, fr, kind, src):
+        # the whole stream collected into a list first: the same stream, judged by what is raised from it
+        if isinstance(src, VSeq):
+            st['S'] = src.t
+        return None
+    E.builtins['__comprehension__'] = comprehension
+
     def body():
         st.clear()
         aws = E.fresh('aws', VS)
